@@ -26,7 +26,8 @@ LEVEL_TEXT = ("any_k_blocks_decode (bare pipeline), immutable_any_k_blocks_decod
               "2-of-3 XOR parity, and is a named, sampled assumption (RS256_MDS) for zfec's code.")
 LEVEL_NOTE = ("Lean kernel + standard axioms; the repo's arithmetic/plumbing is proved, zfec's MDS property is assumed "
               "(sampled: all k-subsets for N<=7, seeded subsets up to N=256, byte-exact against the Lean transcription).")
-RULE = ("one case = one driver line (math / sizes / codec / imm / mut / zdec) evaluated on the real code and on the model; "
+RULE = ("one case = one driver line (math / sizes / codec / imm / mut / zdec / matrix / mask) evaluated on the real code and on the model, "
+        "or one whole-path read (e2e: one k-subset of the shares of a CHK/SDMF/MDMF file on the in-process grid, monitor only); "
         "distinct = distinct lines; non-trivial = well-formed round-trip case in which a secondary block (id >= k) is used "
         "or the segment is padded or more than k blocks are supplied")
 TRUSTED = [
@@ -38,6 +39,8 @@ TRUSTED = [
     "the real methods are run on stand-in `self` objects (SimpleNamespace) with a fake uploadable / data source; "
     "allmydata.util.cputhreadpool._DISABLED is set so defer_to_thread runs synchronously (the repo's own test switch); "
     "for MDMF cases publish.DEFAULT_MUTABLE_MAX_SEGMENT_SIZE is set to the case's segment size in-process",
+    "harness/grid.py (in-process grid of production classes, seeded scheduler) for the whole-path e2e reads; shares are "
+    "hidden by renaming the share files on the servers' disks",
 ]
 ASSUMPTIONS = [
     "zfec (C extension outside /repo) is MDS for 1 <= k <= n <= 256: hypothesis RS256_MDS in Lean — SAMPLING OF AN "
@@ -557,6 +560,119 @@ def mechanism_corpus(ctx, b):
     do_mut(ctx, b, True, 4, 10, 2, 4, 2, b"\x0e\x0f", [2, 3, 0, 1])                      # MDMF tail segment (2 of 4 bytes)
 
 
+# ------------------------------------------------------------------ whole-path reads on the in-process grid
+
+def det_bytes(n, tag):
+    out, i = b"", 0
+    while len(out) < n:
+        out += hashlib.sha256(b"%s-%d" % (tag, i)).digest()
+        i += 1
+    return out[:n]
+
+
+def e2e_case(ctx, fmt, k, n, size, max_seg, subsets, seed=7):
+    """Store one file (CHK / SDMF / MDMF, k-of-n, one share per server, last segment needs padding) on the
+    in-process grid built from the production classes; for each k-subset in `subsets` hide every other share
+    and read through a fresh node.  Monitor (statement, end to end): a reader that can reach k distinct
+    shares gets exactly the bytes written.  Monitor only — there is no model line for this family."""
+    import grid
+    from allmydata.immutable import upload
+    from allmydata.util.consumer import MemoryConsumer
+    from allmydata.mutable.publish import MutableData
+    from allmydata.interfaces import SDMF_VERSION, MDMF_VERSION
+    data = det_bytes(size, b"c36-%s-%d-%d-%d" % (fmt.encode(), k, n, size))
+    with grid.Runtime(seed=seed, policy="fifo") as rt:
+        g = grid.Grid(grid.fresh_dir("c36e"), rt, num_servers=n, num_clients=1, k=k, happy=1, n=n,
+                      max_segment_size=max_seg)
+        try:
+            c = g.clients[0]
+            if fmt == "CHK":
+                cap = rt.wait(c.upload(upload.Data(data, convergence=b"c" * 16))).get_uri()
+                si = c.create_node_from_uri(cap).get_storage_index()
+
+                def read():
+                    mc = MemoryConsumer()
+                    rt.wait(c.create_node_from_uri(cap).read(mc, 0, None))
+                    return b"".join(mc.chunks)
+            else:
+                mn = rt.wait(c.create_mutable_file(MutableData(data),
+                                                   version=SDMF_VERSION if fmt == "SDMF" else MDMF_VERSION))
+                cap, si = mn.get_uri(), mn.get_storage_index()
+                del mn
+
+                def read():
+                    return rt.wait(c.create_node_from_uri(cap).download_best_version())
+
+            files = g.share_files(si)
+            shnums = sorted(set(sh for (_s, sh, _p) in files))
+            if shnums != list(range(n)):
+                raise common.InfraError("C36 e2e: expected shares 0..%d on disk, found %r" % (n - 1, shnums))
+            if subsets == "all":
+                subsets = list(itertools.combinations(range(n), k))
+            for keep in subsets:
+                keep = sorted(keep)
+                case = {"kind": "e2e", "format": fmt, "k": k, "n": n, "size": size, "max_seg": max_seg, "keep": keep}
+                hidden = []
+                for (_srv, sh, path) in files:
+                    if sh not in keep:
+                        os.rename(path, path + ".hidden")
+                        hidden.append(path)
+                try:
+                    try:
+                        got, why = read(), None
+                    except Exception as ex:           # UnrecoverableFileError, NotEnoughSharesError, Stuck, ...
+                        got, why = None, "%s: %s" % (type(ex).__name__, str(ex)[:120])
+                finally:
+                    for path in hidden:
+                        os.rename(path + ".hidden", path)
+                if got != data:
+                    ctx.violation("a reader reaching exactly these k distinct shares of a %s file does not get the bytes written"
+                                  % fmt, case, "k-shares-not-enough:%s" % fmt,
+                                  detail=why or ("read %d bytes, differs from the %d written" % (len(got), len(data))))
+                ctx.case("e2e:%s:%d:%d:%d:%s" % (fmt, k, n, size, ids_s(keep)) if (k < n or size % k) else None)
+                ctx.count("kind:e2e-" + fmt)
+        finally:
+            g.close()
+
+
+E2E_CORPUS = [
+    # format, k, n, size (never a multiple of k nor of the segment size: the tail is padded), max segment size
+    ("CHK", 3, 5, 1999, 600),             # control: 4 segments, immutable
+    ("SDMF", 2, 4, 101, None),
+    ("SDMF", 3, 3, 100, None),            # k == N
+    ("SDMF", 1, 3, 77, None),
+    ("MDMF", 2, 4, 131073, None),         # two segments, 1-byte tail
+    ("MDMF", 3, 5, 2 * 131072 + 1000, None),
+]
+
+
+def e2e_corpus(ctx):
+    for (fmt, k, n, size, max_seg) in E2E_CORPUS:
+        e2e_case(ctx, fmt, k, n, size, max_seg, "all")
+
+
+def e2e_random(ctx):
+    rng = ctx.rng
+    for _ in range(ctx.budget(3, 40)):
+        fmt = rng.choice(["SDMF", "SDMF", "MDMF", "CHK"])
+        if rng.random() < 0.7:
+            n = rng.randrange(1, 7); k = rng.randrange(1, n + 1); subsets = "all"          # every k-subset, N <= 6
+        else:
+            n = rng.randrange(7, 13); k = rng.choice([1, 2, 3, n - 1, n, rng.randrange(1, n + 1)])
+            subsets = [rng.sample(range(n), k) for _ in range(6)]                            # seeded subsets beyond
+        max_seg = None
+        if fmt == "CHK":
+            max_seg = rng.choice([None, 100 * k, 600])
+            size = rng.randrange(56, 3000)          # above the LIT threshold
+        elif fmt == "SDMF":
+            size = rng.randrange(1, 4000)
+        else:
+            size = rng.choice([rng.randrange(1, 3000), 131072 + rng.randrange(1, 2000), 2 * 131072 + rng.randrange(1, 500)])
+        if size % k == 0:
+            size += 1
+        e2e_case(ctx, fmt, k, n, size, max_seg, subsets, seed=rng.randrange(1000))
+
+
 def corpus(ctx, b):
     """Fixed cases (independent of VERIF_SEED): one per known mechanism, then the three parameter sets of
     test_codec, boundary sizes, n = 256."""
@@ -606,6 +722,8 @@ def run(ctx):
             do_imm(ctx, b, c["f"], c["k"], c["n"], c["s"], c["segnum"], un(c["data"]), c["ids"], valid=c.get("valid", True))
         elif c["kind"] == "mut":
             do_mut(ctx, b, c["mdmf"], c["seg0"], c["dl"], c["k"], c["n"], c["segnum"], un(c["data"]), c["ids"], valid=c.get("valid", True))
+        elif c["kind"] == "e2e":
+            e2e_case(ctx, c["format"], c["k"], c["n"], c["size"], c["max_seg"], [c["keep"]])
         elif c["kind"] == "matrix":
             b.add("matrix %d %d %s" % (c["k"], c["n"], ids_s(c["ids"])), impl_matrix(c["k"], c["n"], c["ids"]), c, False)
         elif c["kind"] == "mask":
@@ -617,6 +735,7 @@ def run(ctx):
     b = Batch(ctx)
     corpus(ctx, b)
     b.flush("fixed corpus (one case per known mechanism; test_codec parameter sets, boundary sizes, n=256)")
+    e2e_corpus(ctx)
     if os.environ.get("VERIF_CORPUS_ONLY"):
         ctx.note("VERIF_CORPUS_ONLY: random families skipped")
         return
@@ -697,4 +816,6 @@ def run(ctx):
                           {"kind": "matrix", "k": k, "n": n, "ids": ids}, "matrix-not-inverse")
         b.add("matrix %d %d %s" % (k, n, ids_s(ids)), out, {"kind": "matrix", "k": k, "n": n, "ids": ids}, k < n)
     b.flush("zfec encoding/decoding matrices vs encMatrix/decMatrix; idsOfMask")
+    # 8. whole-path reads from exactly k shares (monitor only)
+    e2e_random(ctx)
     ctx.note("zfec MDS is an assumption: sampled, not proved (see ASSUMPTIONS)")
